@@ -155,9 +155,10 @@ def _parse(r):
     m = re.search(r"Error: (Invariant (\S+) is violated|Action property (\S+) is violated|"
                   r"Temporal properties were violated|Deadlock reached|"
                   r"The postcondition (\S+) (?:was|is) violated[^\n]*|"
+                  r"Postcondition (\S+) at line[^\n]*is false|"
                   r"Assumption [^\n]* is false)", out)
     if m:
-        r.violated = m.group(2) or m.group(3) or m.group(1)
+        r.violated = m.group(2) or m.group(3) or m.group(4) or m.group(5) or m.group(1)
     elif "Error:" in out and not r.timed_out:
         mm = re.search(r"Error: ([^\n]*(?:\n[^\n]*){0,6})", out)
         r.error = mm.group(1) if mm else "unknown TLC error"
@@ -312,6 +313,22 @@ def parse_sim_file(path):
     return res
 
 
+def _module_closure(module):
+    """The module and the spec/ modules it (transitively) EXTENDS / INSTANCEs."""
+    seen, todo = set(), [module[:-4] if module.endswith(".tla") else module]
+    while todo:
+        m = todo.pop()
+        p = os.path.join(SPEC, m + ".tla")
+        if m in seen or not os.path.exists(p):
+            continue
+        seen.add(m)
+        txt = open(p).read()
+        for mm in re.finditer(r"^\s*EXTENDS\s+([^\n]+(?:\n\s+[^\n=]+)*)", txt, re.M):
+            todo.extend(x.strip() for x in re.split(r"[,\s]+", mm.group(1)) if x.strip())
+        todo.extend(re.findall(r"INSTANCE\s+(\w+)", txt))
+    return seen
+
+
 def dump_cached(module, constants, view="view", action_constraint="DumpL",
                 constraints=(), timeout=1800):
     """Transition dump of spec/<module>.tla under *constants*; cached under
@@ -321,9 +338,8 @@ def dump_cached(module, constants, view="view", action_constraint="DumpL",
     import gzip
     import hashlib
     h = hashlib.sha256()
-    for f in sorted(os.listdir(SPEC)):
-        if f.endswith(".tla"):
-            h.update(open(os.path.join(SPEC, f), "rb").read())
+    for f in sorted(_module_closure(module)):
+        h.update(open(os.path.join(SPEC, f + ".tla"), "rb").read())
     h.update(repr((module, sorted(constants.items(), key=str), view, action_constraint,
                    tuple(constraints))).encode())
     key = h.hexdigest()[:20]
